@@ -394,6 +394,21 @@ def crossing_facts(ctx, R="C07.crossing"):
     ctx.check(t.startswith("[block.sustain_count(c[0])*combination_weight(tuple(_b0.values())) for _b0 in "), R, ca, "F3 SAT weight",
               "F3: per-combination weight = combination_weight x sustain count (crossing weight applied per chunk)",
               "Cross.apply per-combination weight is `%s`" % t[:120], cw[0])
+    # the lists paired by position -- combinations encoded per trial, weights, chunk length of the state variables -- range over one collection
+    tc = [s for s in ra.stmts if isinstance(s, ast.Assign) and dotted(s.targets[0]) == "trial_combinations"]
+    ctx.require(len(tc) == 1, "Cross.apply: trial_combinations not found")
+    X = str(ra.at(tc[0], tc[0].value))
+    ctx.check("not(block.is_excluded_or_inconsistent_combination(" in X, R, ca, "F5 SAT combinations", "the crossing's combinations are those not excluded / inconsistent",
+              "Cross.apply's combination list is `%s`" % X[:140], tc[0])
+    cc = [s for s in ra.stmts if isinstance(s, ast.Assign) and dotted(s.targets[0]) == "crossing_combinations"]
+    stt = [s for s in ra.stmts if isinstance(s, ast.Assign) and dotted(s.targets[0]) == "states"]
+    ctx.require(len(cc) == 1 and len(stt) == 1, "Cross.apply: crossing_combinations / states not found")
+    t_cc, t_st = str(ra.at(cc[0], cc[0].value)), str(ra.at(stt[0], stt[0].value))
+    ctx.check(t == "[block.sustain_count(c[0])*combination_weight(tuple(_b0.values())) for _b0 in %s]" % X and
+              t_cc.startswith("[[block.encode_combination(_b1, _b0) for _b1 in %s] for _b0 in " % X) and t_st.endswith(", len(%s)))" % X), R, ca, "F3 SAT aligned lists",
+              "F3: weights, encoded combinations and the state-variable chunks are all taken over the same (filtered) combination list, so they pair up by position",
+              "Cross.apply pairs lists over different collections: weights over `%s`, combinations `%s`, chunk `%s` (expected all over the filtered combination list)" % (
+                  t[t.rfind(" for _b0 in "):][:90], t_cc[:90], t_st[-90:]), cw[0])
     reqs = rw.calls_named("LowLevelRequest")
     ctx.require(len(reqs) == 2, "Cross.__add_weight_constraint: expected the EQ and the LT request")
     forms = {}
